@@ -456,6 +456,18 @@ func genC08(rng *hx.Rng, tier string, w *hx.Writer) error {
 				p.sid = sidDesc{dealer: dl.dealer, members: members, commits: c2, t: bt}
 			}, "no-approve", "threshold-out-of-range-consistent-deal")
 		}
+		// a valid threshold (2..n) announced, MORE commitments than that, the share taken from the
+		// polynomial of the first T coefficients only: the share does not lie on the committed polynomial
+		if t+1 <= n {
+			mk(func(p *plainDesc) {
+				c2 := randCoeffs(rng, t+1, BnQ)
+				if c2[t].Sign() == 0 {
+					c2[t] = big.NewInt(3)
+				}
+				p.commits, p.share = c2, refEval(c2[:t], p.idx, BnQ)
+				p.sid = sidDesc{dealer: dl.dealer, members: members, commits: c2, t: t}
+			}, "no-approve", "share-of-the-first-T-coefficients")
+		}
 		// a polynomial whose commitments make the recipient's public-share evaluation add a point to itself
 		// (constant term = sum_{k>=1} c_k x^k at the recipient's abscissa): the true share is approved,
 		// the share 0 - what a lost doubling would verify - is not
